@@ -541,3 +541,24 @@ Fixpoint srun (st : sst) (ops : list sop) : sst * list sev :=
   | o :: r => let '(s1, e1) := sstep st o in
               let '(s2, e2) := srun s1 r in (s2, e1 ++ e2)
   end.
+
+(* ========================================================================== *)
+(* 6. DefaultWorker._dispatch: the process wrapper around one request          *)
+(* ========================================================================== *)
+(* how the process that runs the payload ends: the payload returns, raises,
+   leaves the interpreter (sys.exit / os._exit with a code), is killed by a
+   signal, or still runs when the task's timeout expires *)
+Inductive pend := PReturn | PRaise | PExit (hard : bool) (code : Z) | PKill | PTimeout.
+
+(* results put on the worker's result queue: (exit code, exception present).
+   _worker_proc reports what the dispatcher returned; _dispatch reports a
+   time-out for a process it had to terminate, and a failure for a process
+   that ended without reporting *)
+Definition proc_results (e : pend) : list (Z * bool) :=
+  match e with
+  | PReturn => [(0, false)]
+  | PRaise => [(1, true)]
+  | PExit _ _ => [(1, true)]
+  | PKill => [(1, true)]
+  | PTimeout => [(1, true)]
+  end.
